@@ -135,7 +135,7 @@ impl<S: BDDSymbol> BDDEnv<S> {
 
         let unique_pointers = all_nodes
             .iter()
-            .unique_by(|&n| Rc::into_raw(Rc::clone(n)) as u32)
+            .unique_by(|&n| Rc::into_raw(Rc::clone(n)) as usize)
             .count();
 
         unique_pointers - unique_hashes
